@@ -129,6 +129,12 @@ def check_layout(case, stats):
     # T1 LF -> CRLF
     t1 = text.replace("\r\n", "\n").replace("\n", "\r\n")
     same(case, "T1 writing the document with CRLF line endings", base, outcome(t1, dflt))
+    # T0 the same characters handed over as another string object: a str subclass (as templating / i18n libraries return), a string
+    # built at run time that shares nothing with the original
+    class Markup(str):
+        pass
+    same(case, "T0 handing the text over as an instance of a str subclass", base, outcome(Markup(text), dflt))
+    same(case, "T0 handing the text over as a scanner made from an instance of a str subclass", base, outcome(None, dflt, scanner=gh.TokenScanner(Markup(text))))
     # T2 string -> file (scanner on a path, and the stream's source_event)
     path = "layout-%d-%d.feature" % (os.getpid(), len(text) % 7)
     # the path string itself, while no such file exists, is just a (rejected) one-line text ...
